@@ -3260,7 +3260,9 @@ class ISLaEmitter(IslaLanguageListener.IslaLanguageListener):
         assert len(nonterminal) > 2
 
         fresh_var = fresh_bound_variable(
-            self.used_variables | self.vars_for_free_nonterminals,
+            self.used_variables
+            | {var.name for var in self.vars_for_free_nonterminals.values()}
+            | {var.name for var in self.vars_for_xpath_expressions.values()},
             BoundVariable(nonterminal[1:-1], nonterminal),
             add=False,
         )
